@@ -95,7 +95,7 @@ class Heap:
             if fld == '[*]':
                 if k.startswith(('list:', 'dict:')):
                     e = k.split(':', 1)[1]
-                    k = 'imm' if e == 'SETTING' else ('obj:' + e if e not in ('?',) else '?')
+                    k = 'setting' if e == 'SETTING' else ('obj:' + e if e not in ('?',) else '?')
                 else:
                     k = '?'
             else:
@@ -479,7 +479,7 @@ class FnAnalysis:
                 if name == 'get':
                     return self.elem_of(recv) | (argrefs[1] if len(argrefs) > 1 else set())
                 if name in MUT_METHODS:
-                    if kinds and kinds <= {'imm', 'str'}:
+                    if kinds and kinds <= {'imm', 'str', 'setting'}:
                         return {IMM}
                     self.write(recv, e, 'call .%s()' % name)
                     add = set()
@@ -504,7 +504,7 @@ class FnAnalysis:
             for k in kinds:
                 if k.startswith('obj:') and name in self.m.classes.get(k[4:], _Empty).methods:
                     targets.append('%s.%s' % (k[4:], name))
-            if not targets and not (kinds and kinds <= {'imm', 'str', 'tuple'}):
+            if not targets and not (kinds and kinds <= {'imm', 'str', 'tuple', 'setting'}):
                 owners = self.H.method_owners.get(name, [])
                 unknown = not kinds or any(k == '?' for k in kinds)
                 if unknown and owners and name not in ('copy', 'get', 'items', 'keys', 'values', 'format', 'join', 'split', 'strip', 'upper', 'lower',
